@@ -113,6 +113,14 @@ CHECKS = {
             "exercised. After each attempt the newest completely written version must be at the path or _BAK1, backups ordered, "
             "a zip destination complete, the session's serializing flags reset and the model registry unchanged.",
             "faults are exceptions at audited operation boundaries (no torn writes); the 'r+' re-open of the staging zip is not faulted because zipfile itself swallows that error"),
+    "C15": ("exploration",
+            "differential property testing (Hypothesis): generated export-subset models are exported and queried in a subprocess where importing modelx is blocked; results compared with the model, also for the flag-inverted variant",
+            "Models inside the documented export subset (lambdas, comprehensions, nested lambdas, names shadowing built-ins incl. child "
+            "spaces, literal/pickled/object references, inheritance, parameter formulas with defaults, nested ItemSpaces, cached and "
+            "uncached cells) are exported; a modelx-free subprocess imports the package and evaluates every cells of every static "
+            "space and of ItemSpaces; every value the model returns must be returned by the package, for the model and for its "
+            "variant with all cached flags inverted.",
+            "only queries answered with a value are compared; the documented limitations delimit the subset"),
     "C16": ("exploration",
             "property-based testing (Hypothesis) of generate_actions/execute_actions over generated DAGs x target lists x all step sizes, against the reference closure/call order and the execution log",
             "For generated DAG models, target lists (dependent targets in either order, input targets) and every step size from 1 to "
